@@ -46,6 +46,57 @@ theorem C10_group_by_list (names : List Bytes) (hne : names ≠ []) (rest : List
     groupByLoop f false (tokCols names ++ rest) = .ok (names.map fun n => ⟨[], n⟩) rest :=
   groupByLoop_cols names hne rest hrest false f hf
 
+/-- **C10.no_silent_tail**: `Parser.Parse` returns a statement only if the statement production
+consumed the whole input up to closing semicolons and the end: every token of the text is part of
+the parsed statement (or a closing semicolon).  In particular no clause behind a token the grammar
+does not know is dropped in silence - the repaired defect `DELETE FROM p x WHERE x.id = 1`. -/
+theorem C10_no_silent_tail (ts : List Token) (s : Stmt) (h : parseTokens ts = .ok s) :
+    ∃ rest, parseStmt (ts.length + 2) ts = .ok s rest ∧
+      ((rest.dropWhile (fun t => t.ty == t_SEMICOLON)).headD eofToken).ty = t_EOF := by
+  unfold parseTokens at h
+  cases hp : parseStmt (ts.length + 2) ts with
+  | ok a rest =>
+    rw [hp] at h
+    simp only [] at h
+    split at h
+    · rename_i he
+      cases h
+      refine ⟨rest, rfl, ?_⟩
+      · have hd : ∀ l : List Token, dropSemis l = l.dropWhile (fun t => t.ty == t_SEMICOLON) := by
+          intro l
+          induction l with
+          | nil => rfl
+          | cons t r ih =>
+            unfold dropSemis
+            by_cases hc : (t.ty == t_SEMICOLON) = true
+            · simp [hc, ih]
+            · simp [hc]
+        unfold atEnd at he
+        rw [hd] at he
+        simpa using he
+    · cases h
+  | err e => rw [hp] at h; cases h
+  | panic p => rw [hp] at h; cases h
+  | fuel => rw [hp] at h; cases h
+
+/-- **C10.tail_refused**: conversely, a statement followed by anything but semicolons and the end is a
+syntax error, whatever the statement. -/
+theorem C10_tail_refused (ts : List Token) (s : Stmt) (rest : List Token)
+    (hp : parseStmt (ts.length + 2) ts = .ok s rest) (hne : atEnd rest = false) :
+    parseTokens ts = .err .syntax := by
+  unfold parseTokens
+  rw [hp]
+  simp [hne]
+
+/-- the witness of the repaired defect: `DELETE FROM p x WHERE x = 1` is refused, `DELETE FROM p ;;`
+is the plain DELETE -/
+example :
+    parseTokens [⟨t_DELETE, []⟩, ⟨t_FROM, []⟩, ⟨t_IDENT, [112]⟩, ⟨t_IDENT, [120]⟩, ⟨t_WHERE, []⟩,
+      ⟨t_IDENT, [120]⟩, ⟨t_EQ, []⟩, ⟨t_INT, [49]⟩, ⟨t_EOF, []⟩] = .err .syntax ∧
+    parseTokens [⟨t_DELETE, []⟩, ⟨t_FROM, []⟩, ⟨t_IDENT, [112]⟩, ⟨t_SEMICOLON, []⟩, ⟨t_SEMICOLON, []⟩, ⟨t_EOF, []⟩] =
+      .ok (.delete [112] none) := by
+  constructor <;> rfl
+
 /-! Non-vacuity: concrete literal tokens satisfy `GoodV`, and a concrete condition meets every hypothesis. -/
 example : GoodV (fun l => match l with
     | .int _ => ⟨t_INT, [49]⟩ | .str s => ⟨t_STR, s⟩ | .bool true => ⟨t_TRUE, []⟩ | .bool false => ⟨t_FALSE, []⟩)
